@@ -102,8 +102,8 @@ Proof. vm_compute. repeat split; reflexivity. Qed.
    a create in between; a get of a missing row *)
 Example C09_nonvacuous_expire_create :
   match grun (init 100 2 [1%Z; 2%Z] [[Get 1%Z]; [Expire 0 0; Get 1%Z; Get 7%Z]; [Get 1%Z; Create]])
-             (repeat 0 30 ++ repeat 2 8 ++ repeat 1 12 ++ repeat 2 10 ++ repeat 1 3 ++ repeat 2 1 ++
-              repeat 1 12 ++ repeat 2 3 ++ repeat 1 41) with
+             (repeat 0 30 ++ repeat 2 8 ++ repeat 1 12 ++ repeat 2 3 ++ repeat 1 2 ++ repeat 2 9 ++
+              repeat 1 12 ++ repeat 2 8 ++ repeat 1 29 ++ repeat 2 13) with
   | Some s => all_finished_b s = true /\ negb (two_objects s) = true /\ negb (bad_exception s) = true /\
               Nat.ltb 0 (s_epoch s 1%Z) = true
   | None => False
